@@ -358,6 +358,7 @@ def verify_function(repo: Repo, registry: Registry, con: Contract, prop: str, sp
     ctx = Ctx(repo, registry, prop)
     ctx.fn_label = label
     ctx.check_safe = con.check_safe
+    ctx.nla_uf = con.nla_uf
     ctx.specs = specs
     ex = Executor(ctx)
     st = State()
@@ -398,6 +399,11 @@ def verify_function(repo: Repo, registry: Registry, con: Contract, prop: str, sp
                     rt = ex.ptype(con.returns) if con.returns else ex.ptype(fi.node.returns)
                     if val.kind == 'any' and rt.kind != 'any':
                         env['result'] = val.with_ty(rt)
+                for hsrc in con.hints:
+                    try:
+                        ex.spec_eval(ost, hsrc, {})
+                    except (Unsupported, KeyError):
+                        pass
                 saved_locals = ost.locals
                 ost.locals = dict(params)   # postconditions see the parameters (entry values)
                 for lbl, src in con.ensures.items():
